@@ -210,6 +210,25 @@ class Outcome:
         self.known = []        # text lines
         self.internal = []     # my machinery is wrong
 
+def _cut_poisoned(prop):
+    """after the library has called the abort handler the harness and the driver answer `poisoned` to every
+    further operation until `reset`: the property functions see the scenario up to that point"""
+    if getattr(prop, "_cut_poisoned", False):
+        return
+    def wrap(fn):
+        def g(scn, outs, *rest):
+            if "poisoned" in outs:
+                k = list(outs).index("poisoned")
+                scn = Scenario(scn.name, scn.lines[:k], scn.meta)
+                outs = list(outs)[:k]
+                rest = tuple(list(r)[:k] if isinstance(r, (list, tuple)) else r for r in rest)
+            return fn(scn, outs, *rest)
+        return g
+    for name in ("oracle", "oracle2", "signature", "classify"):
+        if hasattr(prop, name):
+            setattr(prop, name, wrap(getattr(prop, name)))
+    prop._cut_poisoned = True
+
 def _safe(fn, *args):
     """property oracles are written for whole generated scenarios; on the mutilated ones the shrinker and the
     neighbourhood search produce, an oracle that cannot parse its input gives no verdict"""
@@ -301,6 +320,7 @@ def run_check(prop, tier, seed, replay=None):
         shutil.rmtree(work, ignore_errors=True)
 
 def _run_streams(prop, tier, seed, replay, t0, out, impl, work, obligations, discharged, thms, broke, cov_extra):
+    _cut_poisoned(prop)
     pid = prop.ID
     runner = Runner(impl, build.lean_exe(), work)
     rng = random.Random(seed)
